@@ -337,6 +337,24 @@ fn directed<S: Setup>() -> Vec<CaseResult> {
             ],
         ),
         (
+            // one chain whose evaluation point changes and comes back (x,y,x,x,y,y,x): packed-Horner
+            // windows must end where `b` changes
+            "horner-chain-alpha-x-y-x",
+            vec![
+                c(0),
+                Stmt::Public,
+                Stmt::Public,
+                Stmt::Public,
+                Stmt::Horner { acc: 0, alpha: 1, z: 2, x: 3 },
+                Stmt::Horner { acc: 4, alpha: 2, z: 3, x: 1 },
+                Stmt::Horner { acc: 5, alpha: 1, z: 2, x: 2 },
+                Stmt::Horner { acc: 6, alpha: 1, z: 3, x: 3 },
+                Stmt::Horner { acc: 7, alpha: 2, z: 1, x: 3 },
+                Stmt::Horner { acc: 8, alpha: 2, z: 3, x: 2 },
+                Stmt::Horner { acc: 9, alpha: 1, z: 2, x: 1 },
+            ],
+        ),
+        (
             "connect-two-publics",
             vec![Stmt::Public, Stmt::Public, Stmt::Connect(0, 1), Stmt::Add(0, 1)],
         ),
